@@ -215,7 +215,9 @@ class StructureFnCall:
         return {"*": True}
 
     def ensures(self, a0, a1, result):
-        return {"pair": seq_len(result) == 2}
+        return {"pair": seq_len(result) == 2,
+                # both layout functions build lists of {"model", "nested"} nodes (assumed here; the bounded C12 stand-in walks them)
+                "layout_nodes": nodes_ok(at(result, 0))}
 
 
 @contract(CLI + ".run", props=["C16", "C17"], abstract=True)
